@@ -45,7 +45,9 @@ StartEv(name, c, k, f1, f2) ==
 GenNext ==
     /\ Len(hist) < GenLen
     /\ \/ \E c \in Clients, v \in CsVals :
-             SetNames(c, v) /\ Log([ev |-> "setnames", c |-> c, val |-> v])
+             SetNamesCollate(c, v) /\ Log([ev |-> "setnames", c |-> c, val |-> v, form |-> "collate"])
+       \/ \E c \in Clients, ch \in Charsets :
+             SetNamesPlain(c, ch) /\ Log([ev |-> "setnames", c |-> c, val |-> ch, form |-> "plain"])
        \/ \E c \in Clients, n \in Names :
              \E v \in ValsOf(n) \cup (IF n \in UserVars THEN {} ELSE {None}) :
                 SetVar(c, n, v) /\ Log([ev |-> "set", c |-> c, name |-> n, val |-> v])
